@@ -128,6 +128,12 @@ Proof. rewrite removelast_app by discriminate. cbn. apply app_nil_r. Qed.
 Lemma last_snoc {A} (l : list A) x d : last (l ++ [x]) d = x.
 Proof. apply last_last. Qed.
 
+Lemma nth_map_lt {A B} (f : A -> B) (l : list A) (d : B) (d' : A) i :
+  i < length l -> nth i (map f l) d = f (nth i l d').
+Proof.
+  revert i. induction l as [|x l IH]; intros [|i] H; cbn in *; try lia; auto. apply IH. lia.
+Qed.
+
 Lemma repeat_nth {A} (x d : A) n i : i < n -> nth i (repeat x n) d = x.
 Proof. revert i; induction n; intros [|i] H; cbn; try lia; auto. apply IHn; lia. Qed.
 
